@@ -1108,4 +1108,187 @@ theorem specDecodeList_iff (inp : Bytes) (items : List Bytes) :
     obtain ⟨h1, h2, h3⟩ := specDecodeList_sound _ _ hxs
     rw [hxs, encodeList_inj items xs hfr h2 hlen h3 h1]
 
+/-! ### deep (recursive) decoding built from the model's wrappers -/
+
+def mapOpt (g : Bytes → Option Item) : List Bytes → Option (List Item)
+  | [] => some []
+  | f :: fs =>
+    match g f, mapOpt g fs with
+    | some x, some xs => some (x :: xs)
+    | _, _ => none
+
+/-- Full (deep) decoding built from the model's wrappers: an input accepted by `rlpDecodeString` is a
+    string item; otherwise it must be accepted by `rlpDecodeList`, and each returned frame is decoded
+    in turn.  Every nested frame is shorter than its enclosing input, so fuel = input length suffices. -/
+def decodeItem : Nat → Bytes → Option Item
+  | 0, _ => none
+  | fuel + 1, inp =>
+    match rlpDecodeString inp with
+    | .ok s => some (.str s)
+    | _ =>
+      match rlpDecodeList inp with
+      | .ok frames => (mapOpt (decodeItem fuel) frames).map .list
+      | _ => none
+
+
+theorem encode_str (s : Bytes) : encode (.str s) = encodeString s := by simp [encode]
+theorem encode_list (xs : List Item) : encode (.list xs) = encodeList (encodeItems xs) := by simp [encode]
+theorem encodeItems_nil : encodeItems [] = [] := by simp [encodeItems]
+theorem encodeItems_cons (x : Item) (xs : List Item) : encodeItems (x :: xs) = encode x :: encodeItems xs := by
+  simp [encodeItems]
+
+theorem mapOpt_cons_eq_some (g : Bytes → Option Item) (f : Bytes) (fs : List Bytes) (ys : List Item)
+    (h : mapOpt g (f :: fs) = some ys) : ∃ x xs, g f = some x ∧ mapOpt g fs = some xs ∧ ys = x :: xs := by
+  unfold mapOpt at h
+  split at h
+  · rename_i x xs h1 h2
+    cases h
+    exact ⟨x, xs, h1, h2, rfl⟩
+  · cases h
+
+theorem mapOpt_exact (g : Bytes → Option Item) (hg : ∀ f x, g f = some x → f = encode x) :
+    ∀ (fs : List Bytes) (xs : List Item), mapOpt g fs = some xs → fs = encodeItems xs := by
+  intro fs
+  induction fs with
+  | nil => intro xs h; unfold mapOpt at h; cases h; exact encodeItems_nil.symm
+  | cons f fs ih =>
+    intro ys h
+    obtain ⟨x, xs, h1, h2, rfl⟩ := mapOpt_cons_eq_some g f fs ys h
+    rw [encodeItems_cons, ← hg f x h1, ← ih xs h2]
+
+theorem decodeItem_exact : ∀ (fuel : Nat) (inp : Bytes) (it : Item), decodeItem fuel inp = some it → inp = encode it := by
+  intro fuel
+  induction fuel with
+  | zero => intro inp it h; cases h
+  | succ fuel ih =>
+    intro inp it h
+    unfold decodeItem at h
+    split at h
+    · rename_i s hs
+      cases h
+      rw [encode_str]
+      exact (rlpDecodeString_inv inp s hs).1
+    · split at h
+      · rename_i frames hl
+        rw [Option.map_eq_some_iff] at h
+        obtain ⟨xs, hxs, rfl⟩ := h
+        rw [encode_list, ← mapOpt_exact (decodeItem fuel) ih frames xs hxs]
+        exact (rlpDecodeList_inv inp frames hl).1
+      · cases h
+
+theorem rlpDecodeString_encodeList (items : List Bytes) (hlen : items.flatten.length ≤ maxLongLength) :
+    rlpDecodeString (encodeList items) = .err .typeMismatch := by
+  unfold encodeList
+  have hrs := RS_readSize (header 0xc0 items.flatten.length ++ items.flatten) 0 false _ _
+    (RS.hdr false items.flatten.length items.flatten hlen (by simp [hbase_false]))
+  unfold rlpDecodeString decodeString
+  rw [hrs]
+  rfl
+
+theorem encodeString_length_ge (s : Bytes) : s.length ≤ (encodeString s).length ∧ 1 ≤ (encodeString s).length := by
+  unfold encodeString
+  split
+  · split <;> simp
+  · have := header_length_pos 0x80 s.length
+    simp only [List.length_append]; omega
+
+theorem encodeList_length (items : List Bytes) :
+    (encodeList items).length = (header 0xc0 items.flatten.length).length + items.flatten.length := by
+  unfold encodeList; simp only [List.length_append]
+
+theorem encode_isFrame (it : Item) (h : (encode it).length ≤ maxLongLength) : IsFrame (encode it) := by
+  cases it with
+  | str s =>
+    rw [encode_str] at h ⊢
+    have hs : s.length ≤ maxLongLength := by have := (encodeString_length_ge s).1; omega
+    by_cases hb : ∃ b, s = [b] ∧ b.toNat ≤ 0x7f
+    · obtain ⟨b, rfl, hb⟩ := hb
+      rw [encodeString_single_low b hb]
+      exact .inl ⟨b, rfl, hb⟩
+    · right
+      refine ⟨s, hs, .inl ?_⟩
+      by_cases hl : s.length = 1
+      · obtain ⟨b, rfl⟩ := List.length_eq_one_iff.mp hl
+        exact encodeString_single_high b (fun hc => hb ⟨b, rfl, hc⟩)
+      · exact encodeString_other s hl
+  | list xs =>
+    rw [encode_list] at h ⊢
+    rw [encodeList_length] at h
+    exact .inr ⟨(encodeItems xs).flatten, by omega, .inr rfl⟩
+
+theorem mem_encodeItems (xs : List Item) (f : Bytes) (hf : f ∈ encodeItems xs) : ∃ x ∈ xs, f = encode x := by
+  induction xs with
+  | nil => rw [encodeItems_nil] at hf; cases hf
+  | cons x xs ih =>
+    rw [encodeItems_cons] at hf
+    rcases List.mem_cons.mp hf with rfl | hf
+    · exact ⟨x, by simp, rfl⟩
+    · obtain ⟨y, hy, rfl⟩ := ih hf
+      exact ⟨y, by simp [hy], rfl⟩
+
+theorem length_le_flatten_of_mem (fs : List Bytes) (f : Bytes) (hf : f ∈ fs) : f.length ≤ fs.flatten.length := by
+  induction fs with
+  | nil => cases hf
+  | cons g gs ih =>
+    simp only [List.flatten_cons, List.length_append]
+    rcases List.mem_cons.mp hf with rfl | hf
+    · omega
+    · have := ih hf; omega
+
+theorem mapOpt_roundtrip (g : Bytes → Option Item) (xs : List Item) (hg : ∀ x ∈ xs, g (encode x) = some x) :
+    mapOpt g (encodeItems xs) = some xs := by
+  induction xs with
+  | nil => rw [encodeItems_nil]; rfl
+  | cons x xs ih =>
+    rw [encodeItems_cons]
+    unfold mapOpt
+    rw [hg x (by simp), ih (fun y hy => hg y (by simp [hy]))]
+
+theorem decodeItem_roundtrip : ∀ (fuel : Nat) (it : Item), (encode it).length ≤ fuel →
+    (encode it).length ≤ maxLongLength → decodeItem fuel (encode it) = some it := by
+  intro fuel
+  induction fuel with
+  | zero =>
+    intro it h _
+    cases it with
+    | str s => rw [encode_str] at h; have := (encodeString_length_ge s).2; omega
+    | list xs =>
+      rw [encode_list, encodeList_length] at h
+      have := header_length_pos 0xc0 (encodeItems xs).flatten.length; omega
+  | succ fuel ih =>
+    intro it hfuel hmax
+    cases it with
+    | str s =>
+      rw [encode_str] at hmax ⊢
+      have hs : s.length ≤ maxLongLength := by have := (encodeString_length_ge s).1; omega
+      unfold decodeItem
+      rw [rlpDecodeString_encodeString s hs]
+    | list xs =>
+      have hfr : ∀ f ∈ encodeItems xs, IsFrame f ∧ f.length ≤ fuel ∧ f.length ≤ maxLongLength := by
+        intro f hf
+        have hle := length_le_flatten_of_mem _ f hf
+        rw [encode_list, encodeList_length] at hfuel hmax
+        have := header_length_pos 0xc0 (encodeItems xs).flatten.length
+        obtain ⟨x, _, rfl⟩ := mem_encodeItems xs f hf
+        exact ⟨encode_isFrame x (by omega), by omega, by omega⟩
+      rw [encode_list] at hfuel hmax ⊢
+      have hlen : (encodeItems xs).flatten.length ≤ maxLongLength := by
+        rw [encodeList_length] at hmax; omega
+      unfold decodeItem
+      rw [rlpDecodeString_encodeList _ hlen, rlpDecodeList_encodeList _ (fun f hf => (hfr f hf).1) hlen]
+      simp only []
+      rw [mapOpt_roundtrip]
+      · rfl
+      · intro x hx
+        have hmem : encode x ∈ encodeItems xs := by
+          clear hfr hfuel hmax hlen ih
+          induction xs with
+          | nil => cases hx
+          | cons y ys ih2 =>
+            rw [encodeItems_cons]
+            rcases List.mem_cons.mp hx with rfl | hx
+            · simp
+            · simp [ih2 hx]
+        exact ih x (hfr _ hmem).2.1 (hfr _ hmem).2.2
+
 end Verif.Proofs.RlpExact
